@@ -1638,54 +1638,61 @@ class AstEval:
 
     async def ast_compare(self, arg):
         """Evaluate comparison operators by calling function based on class."""
-        left = arg.left
-        for cmp_op, right in zip(arg.ops, arg.comparators):
+        #
+        # each operand is evaluated exactly once, left to right; evaluation stops
+        # at the first comparison that is false
+        #
+        left = await self.aeval(arg.left)
+        val = True
+        last = len(arg.ops) - 1
+        for idx, (cmp_op, right_ast) in enumerate(zip(arg.ops, arg.comparators)):
+            right = await self.aeval(right_ast)
             name = "ast_cmpop_" + cmp_op.__class__.__name__.lower()
             val = await getattr(self, name, self.ast_not_implemented)(left, right)
-            if not val:
-                return False
+            if idx == last or not val:
+                return val
             left = right
-        return True
+        return val
 
     async def ast_cmpop_eq(self, arg0, arg1):
         """Evaluate comparison operator: ==."""
-        return (await self.aeval(arg0)) == (await self.aeval(arg1))
+        return arg0 == arg1
 
     async def ast_cmpop_noteq(self, arg0, arg1):
         """Evaluate comparison operator: !=."""
-        return (await self.aeval(arg0)) != (await self.aeval(arg1))
+        return arg0 != arg1
 
     async def ast_cmpop_lt(self, arg0, arg1):
         """Evaluate comparison operator: <."""
-        return (await self.aeval(arg0)) < (await self.aeval(arg1))
+        return arg0 < arg1
 
     async def ast_cmpop_lte(self, arg0, arg1):
         """Evaluate comparison operator: <=."""
-        return (await self.aeval(arg0)) <= (await self.aeval(arg1))
+        return arg0 <= arg1
 
     async def ast_cmpop_gt(self, arg0, arg1):
         """Evaluate comparison operator: >."""
-        return (await self.aeval(arg0)) > (await self.aeval(arg1))
+        return arg0 > arg1
 
     async def ast_cmpop_gte(self, arg0, arg1):
         """Evaluate comparison operator: >=."""
-        return (await self.aeval(arg0)) >= (await self.aeval(arg1))
+        return arg0 >= arg1
 
     async def ast_cmpop_is(self, arg0, arg1):
         """Evaluate comparison operator: is."""
-        return (await self.aeval(arg0)) is (await self.aeval(arg1))
+        return arg0 is arg1
 
     async def ast_cmpop_isnot(self, arg0, arg1):
         """Evaluate comparison operator: is not."""
-        return (await self.aeval(arg0)) is not (await self.aeval(arg1))
+        return arg0 is not arg1
 
     async def ast_cmpop_in(self, arg0, arg1):
         """Evaluate comparison operator: in."""
-        return (await self.aeval(arg0)) in (await self.aeval(arg1))
+        return arg0 in arg1
 
     async def ast_cmpop_notin(self, arg0, arg1):
         """Evaluate comparison operator: not in."""
-        return (await self.aeval(arg0)) not in (await self.aeval(arg1))
+        return arg0 not in arg1
 
     async def ast_boolop(self, arg):
         """Evaluate boolean operators and and or."""
